@@ -287,6 +287,15 @@ func main() {
 			scs = append(scs, scenario(cfg{K: [2]kind{{t1, true, 5001}, {t2, true, 5001}}, Depth: ev.Pick(r, 4, 5)}))
 		}
 	}
+	// the ends of the 16-bit message-ID space: 0 and 65535 are ordinary message IDs (a pooled message's "not set"
+	// marker is -1, not 0)
+	for _, t1 := range types {
+		for _, r1 := range []bool{true, false} {
+			scs = append(scs, scenario(cfg{K: [2]kind{{t1, r1, 0}, {message.Confirmable, !r1, 65535}}, Depth: ev.Pick(r, 4, 5)}))
+			scs = append(scs, scenario(cfg{K: [2]kind{{t1, r1, 65535}, {message.NonConfirmable, true, 0}}, Depth: ev.Pick(r, 4, 5)}))
+		}
+		scs = append(scs, scenario(cfg{K: [2]kind{{t1, true, 0}}, Concurrent: true, Preempt: ev.Pick(r, 2, 3)}))
+	}
 	// replies that carry a Max-Age option (0 s, 1 s): the de-duplication lifetime is the exchange lifetime, not the
 	// freshness of the representation
 	for _, ma := range []int{0, 1} {
@@ -314,7 +323,7 @@ func main() {
 	}
 	sum := mcx.Explore(r, scs, mcx.Config{Wall: ev.Pick(r, 3*time.Minute, 25*time.Minute)})
 	mcx.Report(r, scs, sum)
-	r.Set("rule", "history family: every sequence up to the depth over {inject copy of m1, inject copy of m2, +246 s, +248 s, housekeeping tick} for all (CON|NON) x (handler replies | does not reply) assignments of m1 and m2, plus m2 carrying the endpoint's own next outgoing message ID; each injection runs to quiescence and is compared with the reference {MID -> (first reply, deadline)}: handler invocations, number/type/MID/content of emitted datagrams; concurrent family: 3 copies processed by concurrent threads, all schedules within the preemption bound; distinct outcome = distinct (history, handler-call table)")
+	r.Set("rule", "history family: every sequence up to the depth over {inject copy of m1, inject copy of m2, +246 s, +248 s, housekeeping tick} for all (CON|NON) x (handler replies | does not reply) assignments of m1 and m2, plus m2 carrying the endpoint's own next outgoing message ID, plus m1/m2 at the ends of the message-ID space (0, 65535); each injection runs to quiescence and is compared with the reference {MID -> (first reply, deadline)}: handler invocations, number/type/MID/content of emitted datagrams; concurrent family: 3 copies processed by concurrent threads, all schedules within the preemption bound; distinct outcome = distinct (history, handler-call table)")
 	r.Sample(map[string]any{"scenario": scs[0].Name, "history": "inject(m1) +246s inject(m1) +248s inject(m1)"})
 	r.Assume("the lifetime boundary is probed at 246 s and 248 s (never exactly at 247 s)", "in-memory session; events applied to a settled connection in the history family")
 	r.Finish()
